@@ -297,3 +297,272 @@ def main_wrapper(fn):
         print("TOOL-ERROR: %s" % e, file=sys.stderr, flush=True)
         sys.exit(2)
     sys.exit(rc)
+
+
+# ------------------------------------------------------- generated-code crates
+
+GEN_TARGET = os.path.join(BUILD, "gen-target")
+
+
+def _write_main(sdir, cases):
+    lines = ["#![allow(warnings)]", "mod support;"]
+    for c in cases:
+        lines.append('#[path = "m%d/mod.rs"] mod m%d;' % (c, c))
+    lines.append("fn main() {")
+    lines.append("    std::panic::set_hook(Box::new(|_| {}));")
+    for c in cases:
+        lines.append("    m%d::probes::run();" % c)
+    lines.append("}")
+    with open(os.path.join(sdir, "src", "main.rs"), "w") as f:
+        f.write("\n".join(lines) + "\n")
+
+
+def gen_build_run(gen_dir, nshards, timeout=3000, jobs=None):
+    """Build the sharded generated crates, attributing compile errors to cases
+    (by the file of the primary span), rebuilding without the failing cases /
+    failing bound assertions until the rest compiles; then run every shard.
+    Returns (compile_events, runtime_events, stats)."""
+    shutil.copy(os.path.join(REPO, "Cargo.lock"), os.path.join(gen_dir, "Cargo.lock"))
+    active = {}
+    for k in range(nshards):
+        sdir = os.path.join(gen_dir, "s%d" % k)
+        active[k] = list(json.load(open(os.path.join(sdir, "cases.json"))))
+    all_cases = sorted(c for k in active for c in active[k])
+    failed = {}        # case -> {"part":..., "codes": [...], "msg": ...}
+    bound_failed = {}  # case -> set(k)
+    env = env_offline()
+    env["CARGO_TARGET_DIR"] = GEN_TARGET
+    passes = 0
+    t0 = time.time()
+    pat = re.compile(r"s(\d+)/src/m(\d+)/([A-Za-z0-9_]+)\.rs$")
+    while True:
+        passes += 1
+        if passes > 8:
+            raise ToolError("generated crates still fail to build after 8 passes")
+        for k in active:
+            _write_main(os.path.join(gen_dir, "s%d" % k), active[k])
+        cmd = CARGO + ["build", "--offline", "--message-format=json", "--keep-going"]
+        if jobs:
+            cmd += ["-j", str(jobs)]
+        p = subprocess.run(cmd, cwd=gen_dir, env=env, stdout=subprocess.PIPE, stderr=subprocess.PIPE,
+                           text=True, timeout=timeout)
+        new_fail, unattributed = False, []
+        for line in p.stdout.splitlines():
+            if not line.startswith("{"):
+                continue
+            try:
+                m = json.loads(line)
+            except Exception:
+                continue
+            if m.get("reason") != "compiler-message":
+                continue
+            msg = m["message"]
+            if msg.get("level") != "error":
+                continue
+            spans = [s for s in msg.get("spans", []) if s.get("is_primary")] or msg.get("spans", [])
+            code = (msg.get("code") or {}).get("code") or "E????"
+            if not spans:
+                if "aborting due to" in msg.get("message", ""):
+                    continue
+                unattributed.append(msg.get("message", "")[:300])
+                continue
+            fn = spans[0]["file_name"].replace("\\", "/")
+            # macro expansions point into the defining file through expansion
+            mm = pat.search(fn)
+            if not mm:
+                sp = spans[0]
+                while sp.get("expansion") and not mm:
+                    sp = sp["expansion"]["span"]
+                    mm = pat.search(sp["file_name"].replace("\\", "/"))
+            if not mm:
+                unattributed.append("%s: %s" % (fn, msg.get("message", "")[:300]))
+                continue
+            case, part = int(mm.group(2)), mm.group(3)
+            if part == "bounds":
+                ln = spans[0]["line_start"]
+                src = open(os.path.join(gen_dir, "s%s" % mm.group(1), "src", "m%d" % case, "bounds.rs")).read().splitlines()
+                mk = re.match(r"fn b(\d+)\(\)", src[ln - 1]) if ln - 1 < len(src) else None
+                if not mk:
+                    unattributed.append("bounds line %d of case %d: %s" % (ln, case, msg.get("message", "")[:200]))
+                    continue
+                bound_failed.setdefault(case, set()).add(int(mk.group(1)))
+                new_fail = True
+            else:
+                part = "probes" if part == "probes" else "g"
+                f = failed.setdefault(case, {"part": part, "codes": [], "msg": msg.get("message", "")[:300]})
+                if part == "g":
+                    f["part"] = "g"
+                if code not in f["codes"]:
+                    f["codes"].append(code)
+                new_fail = True
+        if unattributed and not new_fail:
+            raise ToolError("compile errors that cannot be attributed to a case:\n" + "\n".join(unattributed[:10]))
+        if p.returncode == 0 and not new_fail:
+            break
+        if p.returncode != 0 and not new_fail:
+            raise ToolError("cargo build failed without attributable errors:\n" + p.stderr[-3000:])
+        # drop failing cases, comment out failing assertions
+        for k in active:
+            active[k] = [c for c in active[k] if c not in failed]
+        for case, ks in bound_failed.items():
+            for k in range(nshards):
+                bp = os.path.join(gen_dir, "s%d" % k, "src", "m%d" % case, "bounds.rs")
+                if os.path.exists(bp):
+                    src = open(bp).read().splitlines()
+                    src = [("// FAILED " + l) if any(l.startswith("fn b%d()" % kk) for kk in ks) else l for l in src]
+                    open(bp, "w").write("\n".join(src) + "\n")
+    build_s = time.time() - t0
+    compile_events = []
+    for c in all_cases:
+        if c in failed:
+            compile_events.append({"ev": "compile", "case": c, "res": "err", "part": failed[c]["part"],
+                                   "codes": failed[c]["codes"], "msg": failed[c]["msg"]})
+        else:
+            compile_events.append({"ev": "compile", "case": c, "res": "ok", "part": "", "codes": [], "msg": ""})
+        compile_events.append({"ev": "bounds", "case": c, "failed": sorted(bound_failed.get(c, []))})
+    runtime = []
+    for k in range(nshards):
+        exe = os.path.join(GEN_TARGET, "debug", "s%d" % k)
+        if not active[k]:
+            continue
+        p = subprocess.run([exe], stdout=subprocess.PIPE, stderr=subprocess.PIPE, text=True, timeout=600)
+        if p.returncode != 0:
+            raise ToolError("generated probe binary s%d exited with %d: %s" % (k, p.returncode, p.stderr[-1000:]))
+        for line in p.stdout.splitlines():
+            if line.startswith("{"):
+                runtime.append(json.loads(line))
+    return compile_events, runtime, {"build_s": round(build_s, 1), "passes": passes,
+                                     "modules": len(all_cases), "modules_failed": len(failed)}
+
+
+def merge_events(api_events, compile_events, runtime_events):
+    """one trace, ordered by case; within a case: API events, compile, runtime"""
+    by = {}
+    for src in (api_events, compile_events, runtime_events):
+        for e in src:
+            by.setdefault(e["case"], []).append(e)
+    out = []
+    for c in sorted(by):
+        evs = by[c]
+        end = [e for e in evs if e["ev"] == "endcase"]
+        rest = [e for e in evs if e["ev"] != "endcase"]
+        out.extend(rest)
+        out.extend(end)
+    return out
+
+
+def extract_flag(cases, drop=("valid", "declared")):
+    return cases
+
+
+def run_gen_pipeline(prop, family, cases, nshards=8, timeout=3000):
+    """cases -> vdrive gen -> build/run generated crates -> merged events"""
+    cpath = os.path.join(BUILD, "%s.cases.ndjson" % prop)
+    apath = os.path.join(BUILD, "%s.api.ndjson" % prop)
+    gdir = os.path.join(BUILD, "gen", prop)
+    write_ndjson(cpath, cases)
+    sh([VDRIVE_BIN, "gen", cpath, apath, family, gdir, str(nshards)], timeout=timeout)
+    api = read_ndjson(apath)
+    ce, rt, st = gen_build_run(gdir, nshards, timeout=timeout)
+    events = merge_events(api, ce, rt)
+    return events, st
+
+
+# ------------------------------------------------ oracle self-check (jsonschema)
+
+INT_RANGES = {"int8": (-2**7, 2**7 - 1), "uint8": (0, 2**8 - 1), "int16": (-2**15, 2**15 - 1),
+              "uint16": (0, 2**16 - 1), "int": (-2**31, 2**31 - 1), "int32": (-2**31, 2**31 - 1),
+              "uint": (0, 2**32 - 1), "uint32": (0, 2**32 - 1), "int64": (-2**63, 2**63 - 1),
+              "uint64": (0, 2**64 - 1)}
+ANCHOR = {"i64min": -2**63, "i32min": -2**31, "i16min": -2**15, "i8min": -2**7, "zero": 0, "i8max": 2**7 - 1,
+          "u8max": 2**8 - 1, "i16max": 2**15 - 1, "u16max": 2**16 - 1, "i32max": 2**31 - 1, "u32max": 2**32 - 1,
+          "i64max": 2**63 - 1, "u64max": 2**64 - 1}
+
+
+STR_SAMPLES = {"uuid": ["00000000-0000-0000-0000-000000000001"], "date": ["2020-01-02"],
+               "date-time": ["2020-01-02T03:04:05Z"], "ip": ["1.2.3.4", "::1"], "ipv4": ["1.2.3.4"], "ipv6": ["::1"]}
+
+
+def tok_char(t):
+    if t.startswith("<") and t.endswith(">") and len(t) > 2:
+        return chr(int(t[1:-1], 16))
+    return t
+
+
+def untag(v):
+    t = v["t"]
+    if t == "null":
+        return None
+    if t == "bool":
+        return v["v"]
+    if t == "int":
+        return v["v"]
+    if t == "big":
+        return ANCHOR[v["p"]["a"]] + v["p"]["o"]
+    if t == "num":
+        return v["h"] / 2.0
+    if t == "str":
+        return "".join(tok_char(c) for c in v["c"])
+    if t == "arr":
+        return [untag(x) for x in v["v"]]
+    if t == "obj":
+        return {k: untag(x) for k, x in zip(v["k"], v["v"])}
+    raise ToolError("untag: %r" % v)
+
+
+def concrete_schema(s):
+    """abstract schema (as printed by ToJson) -> JSON Schema for the Python oracle, with
+    recognised integer formats turned into range keywords"""
+    if isinstance(s, list) and not s:
+        return {}
+    if "bool" in s:
+        return bool(s["bool"])
+    out = {}
+    for k, v in s.items():
+        if k == "ref":
+            out["$ref"] = "#" if v == "#" else "#/definitions/" + v
+        elif k in ("additionalProperties", "propertyNames", "additionalItems", "not", "contains"):
+            out[k] = concrete_schema(v)
+        elif k == "items":
+            out[k] = concrete_schema(v)
+        elif k == "itemsList":
+            out["items"] = [concrete_schema(x) for x in v]
+        elif k in ("allOf", "anyOf", "oneOf"):
+            out[k] = [concrete_schema(x) for x in v]
+        elif k in ("properties", "patternProperties", "definitions"):
+            out[k] = {} if isinstance(v, list) else {pk: concrete_schema(pv) for pk, pv in v.items()}
+        elif k in ("default", "const"):
+            out[k] = untag(v)
+        elif k == "enum":
+            out[k] = [untag(x) for x in v]
+        elif k in ("minimum", "maximum", "exclusiveMinimum", "exclusiveMaximum"):
+            out[k] = (ANCHOR[v["a"]] + v["o"]) if "a" in v else untag(v)
+        elif k == "types":
+            out["type"] = v
+        elif k == "xrust":
+            pass
+        else:
+            out[k] = v
+    f = out.get("format")
+    if f in STR_SAMPLES:
+        out = {"allOf": [out, {"if": {"type": "string"}, "then": {"enum": STR_SAMPLES[f]}}]}
+    if f in INT_RANGES:
+        lo, hi = INT_RANGES[f]
+        out = {"allOf": [out, {"if": {"type": "integer"}, "then": {"minimum": lo, "maximum": hi}}]}
+    return out
+
+
+def oracle_selfcheck(items):
+    """items: iterable of (defs, schema_name, tagged value, tla_verdict).  Runs the Python
+    jsonschema Draft7Validator in the tooling venv and returns the list of disagreements."""
+    payload = []
+    for defs, name, val, verdict in items:
+        payload.append({"defs": {k: concrete_schema(v) for k, v in defs.items()}, "name": name,
+                        "val": untag(val), "tla": bool(verdict)})
+    ipath = os.path.join(BUILD, "oracle_in.%d.json" % os.getpid())
+    with open(ipath, "w") as f:
+        json.dump(payload, f)
+    out, _ = sh(["python3-vt", os.path.join(VERIF, "bin", "oracle.py"), ipath], timeout=1200)
+    os.remove(ipath)
+    res = json.loads(out.strip().splitlines()[-1])
+    return res
